@@ -74,6 +74,9 @@ fn simplify_op(o: &Op) -> Vec<Op> {
         Op::Cancel { op, .. } => c.push((**op).clone()),
         Op::TellT { h, m, .. } => c.push(Op::Tell { h: *h, m: m.clone() }),
         Op::AskT { h, m, .. } => c.push(Op::Ask { h: *h, m: m.clone() }),
+        Op::TellUs { h, m, .. } => c.push(Op::Tell { h: *h, m: m.clone() }),
+        Op::AskUs { h, m, .. } => c.push(Op::Ask { h: *h, m: m.clone() }),
+        Op::ConsumeBudget(n) if *n > 1 => c.push(Op::ConsumeBudget(1)),
         Op::Sleep(n) if *n > 1 => c.push(Op::Sleep(1)),
         Op::Yield(n) if *n > 1 => c.push(Op::Yield(1)),
         Op::Fork { ops, .. } if ops.len() == 1 => c.push(ops[0].clone()),
@@ -96,11 +99,11 @@ fn for_each_list(sc: &mut Scenario, f: &mut dyn FnMut(&mut Vec<Op>)) {
         f(v);
         for o in v.iter_mut() {
             match o {
-                Op::Tell { m, .. } | Op::TellT { m, .. } | Op::Ask { m, .. } | Op::AskT { m, .. } | Op::AskJoin { m, .. } => rec(&mut m.steps, f),
+                Op::Tell { m, .. } | Op::TellT { m, .. } | Op::Ask { m, .. } | Op::AskT { m, .. } | Op::AskJoin { m, .. } | Op::TellUs { m, .. } | Op::AskUs { m, .. } => rec(&mut m.steps, f),
                 Op::Fork { ops, .. } => rec(ops, f),
                 Op::Join(ops) => rec(ops, f),
                 Op::Cancel { op, .. } => {
-                    if let Op::Tell { m, .. } | Op::TellT { m, .. } | Op::Ask { m, .. } | Op::AskT { m, .. } | Op::AskJoin { m, .. } = &mut **op {
+                    if let Op::Tell { m, .. } | Op::TellT { m, .. } | Op::Ask { m, .. } | Op::AskT { m, .. } | Op::AskJoin { m, .. } | Op::TellUs { m, .. } | Op::AskUs { m, .. } = &mut **op {
                         rec(&mut m.steps, f)
                     }
                 }
